@@ -81,10 +81,10 @@ package kubeeventsmanager
 //@   let nFired := (nPut - old(nPut)) + (len(ei.eventBuf) - old(len(ei.eventBuf)))
 //@   ensures [at-most-one @C08]     nFired == 0 || nFired == 1
 //@   ensures [stopped @C08]         old(ei.stopped) ==> nFired == 0 && has(ei.cachedObjects, rid) == wasCached
-//@   ensures [others-kept @C08,C02]     forall(k, string, k != rid ==> has(ei.cachedObjects, k) == old(has(ei.cachedObjects, k)) && ei.cachedObjects[k] == old(ei.cachedObjects[k]))
+//@   ensures [others-kept @C08,C02,C01]     forall(k, string, k != rid ==> has(ei.cachedObjects, k) == old(has(ei.cachedObjects, k)) && ei.cachedObjects[k] == old(ei.cachedObjects[k]))
 //@   ensures [not-listed @C08]      !listed(ei.Monitor.EventTypes, eventType) ==> nFired == 0
-//@   ensures [cache-updated @C08,C02]   (eventType == kemtypes.WatchEventAdded || eventType == kemtypes.WatchEventModified) && !old(ei.stopped) && lastFilterErr == nil ==> has(ei.cachedObjects, rid) && ei.cachedObjects[rid] == lastFilterRes
-//@   ensures [cache-removed @C08,C02]   eventType == kemtypes.WatchEventDeleted && !old(ei.stopped) && lastFilterErr == nil ==> !has(ei.cachedObjects, rid)
+//@   ensures [cache-updated @C08,C02,C01]   (eventType == kemtypes.WatchEventAdded || eventType == kemtypes.WatchEventModified) && !old(ei.stopped) && lastFilterErr == nil ==> has(ei.cachedObjects, rid) && ei.cachedObjects[rid] == lastFilterRes
+//@   ensures [cache-removed @C08,C02,C01]   eventType == kemtypes.WatchEventDeleted && !old(ei.stopped) && lastFilterErr == nil ==> !has(ei.cachedObjects, rid)
 //@   ensures [unchanged-skipped @C08] (eventType == kemtypes.WatchEventAdded || eventType == kemtypes.WatchEventModified) && wasCached && has(ei.cachedObjects, rid)
 //@        && ei.cachedObjects[rid].Metadata.Checksum == oldSum && ei.cachedObjects[rid] != old(ei.cachedObjects[rid]) ==> nFired == 0
 //@   ensures [changed-fires @C08]   (eventType == kemtypes.WatchEventAdded || eventType == kemtypes.WatchEventModified) && listed(ei.Monitor.EventTypes, eventType) && has(ei.cachedObjects, rid)
